@@ -7,7 +7,7 @@ VERIF = os.path.dirname(os.path.dirname(os.path.abspath(__file__)))
 ENGINES = [
     dict(name="periph", path="engines/periph", serves_properties=["C13", "C15", "C16"],
          kind_free_text="explicit-state BFS / exhaustive configuration enumeration over the real Timer, Btdmp, Dma+Ahbm objects with lock-step reference models"),
-    dict(name="sys", path="engines/sys", serves_properties=["C06", "C07", "C12", "C14", "C17"],
+    dict(name="sys", path="engines/sys", serves_properties=["C06", "C07", "C11", "C12", "C14", "C17"],
          kind_free_text="explicit-state BFS over the whole Teakra facade (host API + DSP-side MMIO) with snapshot/restore of the plain state and lock-step reference models"),
 ]
 
@@ -21,6 +21,10 @@ CLAIMED = {
             "Two layers: all event sequences up to the depth bound over the full alphabet (trigger, acknowledge and routing of every subset of an IRQ triple, ie/im/imv/ic/cpc writes, instruction boundaries of a fixed program with reti/retic/staying handlers and a rep main line), and the complete reachable state set of fixed routing/mask configurations over trigger/acknowledge/ie/step. After every event the projected real state (request, routing, latches, ip/im/ie, pc, sp, stack words, repeat state, banked im) must equal the model's, which encodes exactly-once delivery, priority, masking, rep blocking, pushed return address and acknowledge semantics. Plus the finite wiring check of the nine peripheral sources.",
             "Trusted: the 150-line reference model (incl. a 5-instruction interpreter for the fixed program), snapshot/restore of registers/ICU/latches, g++. Nesting bounded at 2; IRQ alphabets of three indices per run (all 16 indices appear across runs).",
             "DESIGN.md section 4, C07"),
+    "C11": ("sys", "exhaustive enumeration of all 2^18 memory words x all views (host accessors, raw bytes, instruction fetch, 13 guest load/store forms, movp/movd) and of all MMIO window bases x boundary offsets on the real machine, memory observer as write oracle",
+            "The memory is small enough to visit every word through every view, for both banks and both memory-ownership modes, so the address arithmetic of the statement is decided completely rather than at sampled addresses; every window base k*0x200 (and off-grid bases) is checked at both edges for register-vs-memory routing, with the memory observer proving that no write reaches the cell underneath.",
+            "Trusted: hand-assembled opcodes of the load/store forms, the memory-observer hook, g++. Default paging mode only.",
+            "DESIGN.md section 4, C11"),
     "C12": ("sys", "exhaustive enumeration of write histories over all MMIO offsets x value alphabet x paths x prefixes on the real MMIORegion, checked against a documented field/coupling table after every write (read-all before and after)",
             "Every even offset is written with 20 values through both paths from 7 prefixes; the complete register image is read before and after every write, so read-back of documented RW fields and absence of undocumented aliasing are decided for every (state, offset, value) visited, not sampled; ordered register pairs inside each block, the 8 DMA channel windows, the 32 mirrors and 7 window bases are enumerated completely.",
             "Trusted: spec/mmio_fields.h (field classes and couplings transcribed from the *.md layouts), g++. Values restricted to 0/FFFF/5555/AAAA/single bits; DMA channel selector to its 3 documented bits.",
